@@ -74,6 +74,10 @@ func fitnessFor(rule, epoch, i int, g *genetics.Genome) float64 {
 		// stagnating: independent of the epoch and of the genome, so the record of the first epoch is
 		// never beaten and delta coding fires every DropOffAge+5 epochs
 		return float64(1+(i*7)%13) + float64(i)*1e-4
+	case 9:
+		// small distinct positive values (all below 1e-4, the size of the floor adjustFitness gives to negative
+		// values): nothing may be clamped, tied or reordered down here
+		return 1e-6*float64(1+(i*7+epoch)%13) + float64(i)*1e-9 + float64(len(g.Genes))*1e-8
 	case 7:
 		// subnormal values: the population average of the adjusted values is a subnormal number whose rounding
 		// error is not relative any more (recorded finding subnormal-fitness-quota-overshoot)
@@ -136,6 +140,7 @@ type popOracle struct {
 	seenSp    map[int]bool
 	prevMax   int64
 	randomPop bool // NewPopulationRandom population: genomes without common ancestry (recorded finding)
+	parallel  bool // parallel executor: two goroutines may both allocate the same structural innovation (C03 states that clause for the sequential executor only)
 }
 
 func newPopOracle(prop string, bad func(key, what string)) *popOracle {
@@ -251,6 +256,33 @@ func (po *popOracle) afterEpoch(p *genetics.Population, opts *neat.Options, prev
 					newMaxI = x.InnovationNum
 				}
 			}
+			// a module (control gene) carries an innovation number of the same numbering: it denotes that module
+			for _, cg := range o.Genotype.ControlGenes {
+				k := fmt.Sprint("module with control node ", cg.ControlNode.Id)
+				if old, ok := po.registry[cg.InnovationNum]; ok {
+					if old != k {
+						po.bad("innovation-number-reused", fmt.Sprintf("innovation %d denotes %s and %s", cg.InnovationNum, old, k))
+					}
+				} else {
+					if !first && cg.InnovationNum <= po.maxInnov {
+						po.bad("innovation-number-not-fresh", fmt.Sprintf("module innovation %d issued in this generation is not larger than %d held before", cg.InnovationNum, po.maxInnov))
+					}
+					po.registry[cg.InnovationNum] = k
+				}
+				if cg.InnovationNum > newMaxI {
+					newMaxI = cg.InnovationNum
+				}
+				if role, ok := po.nodeRoles[cg.ControlNode.Id]; ok {
+					if role != network.NodeNeuronType(100) {
+						po.bad("node-id-role-changed", fmt.Sprintf("node id %d denotes a control node and an ordinary node", cg.ControlNode.Id))
+					}
+				} else {
+					po.nodeRoles[cg.ControlNode.Id] = network.NodeNeuronType(100)
+				}
+				if cg.ControlNode.Id > newMaxN {
+					newMaxN = cg.ControlNode.Id
+				}
+			}
 			for _, n := range o.Genotype.Nodes {
 				if role, ok := po.nodeRoles[n.Id]; ok {
 					if role != n.NeuronType {
@@ -273,7 +305,7 @@ func (po *popOracle) afterEpoch(p *genetics.Population, opts *neat.Options, prev
 		}
 		// same structural innovation within this generation => same number (sequential executor):
 		// two genes with the same link key that are both new in this generation must share the number
-		if !first && po.prop == "C03" {
+		if !first && po.prop == "C03" && !po.parallel {
 			byKey := map[string]int64{}
 			for _, o := range p.Organisms {
 				for _, x := range o.Genotype.Genes {
@@ -310,6 +342,7 @@ func runHistory(r *Run, in *epochInput, cf *CaseFile, caseID int) historyResult 
 	bad := func(key, what string) { r.Fail(Failure{Key: key, What: what, Input: in}) }
 	po := newPopOracle(in.Prop, bad)
 	po.randomPop = in.Random
+	po.parallel = in.Parallel
 	start, err := startGenomeFor(in)
 	if err != nil {
 		bad("start-genome-unreadable", err.Error())
